@@ -1,5 +1,7 @@
 import Vata.Parse
 import Vata.Generated.Tables
+import Vata.NfaOps
+import Vata.NfaIncl
 /-! # Driver side of NFA histories (`nfah`): properties C09, C10, C11 (word automata) -/
 open Vata
 open Vata.W (NFA acceptsW)
@@ -102,6 +104,9 @@ partial def go (steps : List String) (res : List String) (k : Nat) (pool : List 
       let ok ← getE (equivW D A FUEL) "fuel"
       if !ok then f := f ++ [s!"violation step {k} {op}-language"]
       if !nfaSub D A then f := f ++ [s!"mismatch step {k} {op} result is not a sub-automaton"]
+      -- the L2 models (`nfaRemoveUnreachable_lang`, `nfaRemoveUseless_lang/_trim`) keep the state names: exact comparison
+      let M := if op == "unreach" then Vata.nfaRemoveUnreachable A else Vata.nfaRemoveUseless A
+      if ok && !nfaEq D M then f := f ++ [s!"mismatch step {k} {op}-model: implementation {showNfa D} model {showNfa M}"]
       pool' := pool ++ [some D]
     | "cand" =>
       let A ← ent 1
@@ -122,6 +127,17 @@ partial def go (steps : List String) (res : List String) (k : Nat) (pool : List 
       let exp ← getE (inclW A B FUEL) "fuel"
       for (c, n) in v.toList.zip ["antichains", "congr-depth", "congr-breadth", "default"] do
         if c != bchar exp then f := f ++ [s!"violation step {k} incl[{n}]={c} reference={bchar exp}"]
+      -- the L2 models of the algorithms (`checkNfaInclAC_iff/_total`, `checkNfaInclCongr_iff/_total`): must return and
+      -- agree with the implementation's verdict of the same algorithm (and with the reference)
+      let models : List (String × Option (Bool × Vata.NfaIncl.Cert)) :=
+        [("antichains", Vata.checkNfaInclAC A B 200000), ("congr-depth", Vata.checkNfaInclCongr A B false 200000),
+         ("congr-breadth", Vata.checkNfaInclCongr A B true 200000)]
+      for ((n, mo), c) in models.zip v.toList do
+        match mo with
+        | some (b, _) =>
+          if bchar b != c then f := f ++ [s!"mismatch step {k} {n}-model verdict {bchar b} implementation {c}"]
+          if b != exp then throw s!"internal: certifying {n} model contradicts the reference"
+        | none => f := f ++ [s!"mismatch step {k} {n}-model returned none (fuel / certificate)"]
       let eA ← getE (emptyW A FUEL) "fuel"
       tags := tags ++ [s!"incl={bchar exp}", s!"emptyA={bchar eA}"]
     | "inclall" =>
